@@ -108,6 +108,21 @@ CHECKS = {
         note="Trusted: the reference model; file length is measured at the backend when compact() returns; the pass bound is a generous logical bound.",
         design="5/C13",
     ),
+
+    "C17": dict(
+        category="exploration",
+        technique="runtime monitoring: catalog reference model (name -> kind, types, contents) prescribing the outcome of every open/rename/delete/list, with the ownership accountant after every transaction",
+        text="Sequences over 8 names and 10 (kind, key, value) instantiations including same-width type pairs: every open (own or foreign types, second open), delete and rename (new/existing/self target, right or wrong kind, while a handle is open) and list must return exactly what the model prescribes; contents follow renames; readers see nothing before commit and nothing of aborted work, re-open tables with foreign types and through the untyped API; the accountant proves deleted tables release their pages.",
+        note="Trusted: the catalog model written from the documented error semantics; built-in types only.",
+        design="5/C17",
+    ),
+    "C18": dict(
+        category="exploration",
+        technique="runtime monitoring: sorted-map gap-cursor oracle over generated cursor scripts, with the independent file decoder on the pages the bulk splice produced",
+        text="Tables of 0..3000 entries, three key types, values up to 3 pages; scripts of bound positioning, peeks, moves, buffered insert runs of 1..500 in both directions with direction switches, deliberately unordered keys (equal to a neighbour, beyond one, equal to a pending insert), removals, close or silent drop; every answer compared with a sorted-map cursor; whole-table equality after every script, commit, abort; read-only cursors on Table and ReadOnlyTable.",
+        note="Trusted: the model cursor (gap tracked by the key before it). Scripts are sampled.",
+        design="5/C18",
+    ),
 }
 
 REASONS_NOT_YET = "check not built yet in this revision of /verif (runtime-monitoring design exists in DESIGN.md section 5)"
